@@ -29,7 +29,7 @@ REQUIRED = {
     "trainee_changed_checks": 30, "no_change_calls_checked": 20,
     "in_loop_segments_checked": 500, "routines_traced": 9,
 }
-TIMEOUT = {"quick": 1500, "thorough": 3400}
+TIMEOUT = {"quick": 1500, "thorough": 7000}
 ASSUMPTIONS = ["non-Param variables (action scale / bias) are part of the "
                "comparison and must not move",
                "the trainee is required to change only when its gradient was "
@@ -48,7 +48,7 @@ COST = {"mrq": 16, "td7": 10, "sac": 6}
 
 def gen_cases(tier, seed):
     rng = np.random.default_rng(seed + 505)
-    k = 2 if tier == "quick" else 14
+    k = 2 if tier == "quick" else 40
     cases = []
     for r in ROUTINES:
         for i in range(k):
